@@ -12,6 +12,7 @@
 """
 import ast
 
+import numpy as np
 import sympy as sp
 
 from ..model import AnalysisError, norm_text, walk_local
@@ -79,6 +80,7 @@ def run(repo, chk, tier):
     chk.rule("E3-quad", "derived-quantity errors are sqrt(g . V . g) with one gradient and the matrix passed in; hesse errors are sqrt(|diag(inv H)|)")
     chk.assume("domain: values real (bases of powers / arguments of log positive), input errors positive; scalars real and non-zero")
     chk.trusted_base[:] = ["AST->sympy translator sa/sym.py", "sympy diff / ring normaliser", "sympy assumption engine for sign decisions (cross-checked numerically)"]
+    clause_coord_and_config(repo, chk)
     clause_a(repo, chk, tier)
     clause_exact_power(repo, chk)
     clause_b(repo, chk, tier)
@@ -146,6 +148,45 @@ def clause_exact_power(repo, chk):
         if not ok:
             chk.violation("E6-domain", fn.key, "exact-power:%s^%s" % (x, n), "(%s +- %s) ** %s evaluates to %s +- %s, first-order propagation gives %s +- %s" % (x, e, n, val, err, want_v, want_e), file="tf_pwa/err_num.py", line=fn.lineno)
     chk.require_count("E6-domain", len(EXACT_POWERS))
+
+
+def clause_coord_and_config(repo, chk):
+    """(H-coord) the point handed to the bound-transform wrappers is read in the fit coordinate; (C-keep) re-starting
+    an integration keeps the covariance matrix the caller configured"""
+    import ast
+
+    from ..model import const_value, norm_text, walk_local
+    APP = "tf_pwa/applications.py"
+    fn = repo.fn(APP + "::num_hess_inv_3point")
+    chk.rule("H-coord", "num_hess_inv_3point differentiates vm.trans_fcn_grad(fcn.nll_grad) and maps the result with vm.trans_error_matrix: the expansion point it hands to both is read with get_all_val(True) (the fit coordinate they expect) - with a range still registered the model value is another point")
+    uses_wrappers = any(isinstance(c, ast.Call) and isinstance(c.func, ast.Attribute) and c.func.attr in ("trans_fcn_grad", "trans_error_matrix", "trans_grad_hessp", "trans_f_grad_hess") for c in walk_local(fn.node))
+    reads = [c for c in walk_local(fn.node) if isinstance(c, ast.Call) and isinstance(c.func, ast.Attribute) and c.func.attr == "get_all_val"]
+    if not uses_wrappers or not reads:
+        raise AnalysisError("num_hess_inv_3point no longer reads its expansion point with get_all_val / wraps the objective with the bound transforms")
+    for c in reads:
+        flag = c.args[0] if c.args else next((k.value for k in c.keywords if k.arg == "val_in_fit"), None)
+        ok = flag is not None and const_value(flag) is True
+        chk.oblige("H-coord", "num_hess_inv_3point reads `%s`: fit coordinate" % norm_text(c), ok)
+        if not ok:
+            chk.violation("H-coord", fn.key, "model-coordinate", "the expansion point is read with `%s` (model values) and handed to vm.trans_fcn_grad(...) / vm.trans_error_matrix(...), which take the fit coordinate: with a range registered (left by a Newton-CG / trust-* fit, or set by the user) the Hessian is taken at another point and mapped with the wrong slopes" % norm_text(c), file=APP, line=c.lineno)
+    # C-keep
+    FFm = "tf_pwa/fitfractions.py"
+    cls = repo.cls(FFm + "::FitFractions")
+    init = cls.methods.get("init_res_table")
+    if init is None:
+        raise AnalysisError("anchor vanished: FitFractions.init_res_table")
+    chk.rule("C-keep", "FitFractions.init_res_table (run at the start of every integral()) interpreted on an object whose error_matrix was configured: the accumulators are reset, the configured covariance matrix is still the same object afterwards")
+    V = np.array([[sp.Symbol("V11"), sp.Symbol("V12")], [sp.Symbol("V12"), sp.Symbol("V22")]], dtype=object)
+    so = SelfObj(cls, {"res": ["a", "b"], "n_var": sp.Integer(2), "error_matrix": V, "cached_int": {"stale": sp.Integer(1)}, "cached_grad": {}, "cached_int_total": sp.Symbol("old_total"), "cached_grad_total": sp.Symbol("old_grad")})
+    try:
+        Translator(repo, hooks={"allow_attr_store": True, "concrete_zeros": True, "stack_as_array": True}, max_depth=2).call_fn(init, [], self_obj=so)
+    except Unmodelled as e:
+        raise AnalysisError("FitFractions.init_res_table cannot be interpreted: %s" % e)
+    kept = so.attrs.get("error_matrix") is V
+    reset = sp.sympify(so.attrs.get("cached_int_total")) == 0
+    chk.oblige("C-keep", "init_res_table: totals reset (%s), configured error_matrix kept (%s)" % (reset, kept), kept and reset)
+    if not kept:
+        chk.violation("C-keep", init.key, "error_matrix", "init_res_table replaces self.error_matrix (now %s): a covariance matrix configured before integral() - or before a second integral() on the object fit_fractions returned - is silently replaced, so every fit-fraction uncertainty comes out as sqrt(g . 0 . g) = 0" % (str(so.attrs.get("error_matrix"))[:60],), file=FFm, line=init.lineno)
 
 
 def clause_a(repo, chk, tier):
